@@ -35,13 +35,14 @@ impl<T: Flavor> Pool<T> {
     /// are both kept), so that values reached through different sources are compared with each other
     /// without flooding the pool
     pub fn add(&mut self, p: GenericPurl<T>, prov: impl FnOnce() -> Value) {
-        let o = h64(&format!("{:?}", p));
+        let Ok(o) = guarded(|| h64(&format!("{:?}", p))) else { return };
         let n = self.seen.entry(o).or_insert(0);
         if *n >= 2 {
             return;
         }
         *n += 1;
-        let s = p.to_string();
+        // Display panics on an invalid type string; such a value cannot be in a pool (C06/C13 report it)
+        let Ok(s) = guarded(|| p.to_string()) else { return };
         self.values.push((p, s, prov()));
     }
 }
